@@ -1,98 +1,41 @@
 ------------------------------ MODULE Lifecycle -------------------------------
 (***************************************************************************)
-(* C16: the life of upstream connections on one server node                *)
-(*   server/upstream/server.go   upstreamRoute: upgrade, addSession,       *)
-(*       AddConn, wait in AcceptStreamWithContext, deferred RemoveConn /   *)
-(*       removeSession / Close; shedSessions; Shutdown (context cancel);   *)
-(*       token deadline (context.WithDeadline)                             *)
-(*   server/proxy/*.go           RemoveConn when Dial returns ErrGone      *)
-(*   client/listener.go          Close = go-away, Shutdown = close         *)
-(* One action per step of the handler, so that a connection can end for    *)
-(* any cause while other connections, requests and the shutdown are at any *)
-(* point.                                                                  *)
+(* C16: the life of upstream connections on one server node.               *)
+(* One action per step of the code (LifecycleOps.tla holds the transition  *)
+(* functions), so that a connection can end for any cause while other      *)
+(* connections, requests and the shutdown are at any point: Spec.          *)
+(* MacroSpec is the same system driven by the commands of the scenario     *)
+(* driver (harness cmd/peng, mode c16): every command runs to quiescence.  *)
+(* Its state graph is the source of the scenarios executed on a real node. *)
 (***************************************************************************)
-EXTENDS Integers, FiniteSets
+EXTENDS LifecycleOps
 
-CONSTANTS ConnE1, ConnE2,   \* connection identities per endpoint
-          MaxClock,         \* discrete clock bound (token deadlines)
-          DisableExpiry     \* disconnect-on-expiry disabled
+VARIABLES cst, acc, reg, sess, adv, down, clock, deadline, why
+vars == <<cst, acc, reg, sess, adv, down, clock, deadline, why>>
 
-Conn == ConnE1 \cup ConnE2
-Ep(c) == IF c \in ConnE1 THEN "e1" ELSE "e2"
-Eps == {"e1", "e2"}
-
-VARIABLES
-  cst,       \* cst[c] : "idle" | "open" | "goaway" | "ending" | "gone"
-  reg,       \* upstreams registered with the manager
-  sess,      \* sessions held by the upstream server
-  adv,       \* adv[e] : count advertised to the cluster
-  down,      \* the server is shutting down
-  clock,
-  deadline,  \* deadline[c] : token expiry (0 = none)
-  why        \* why[c] : cause of the end of c ("" while alive)
-
-vars == <<cst, reg, sess, adv, down, clock, deadline, why>>
+S == [cst |-> cst, acc |-> acc, reg |-> reg, sess |-> sess, adv |-> adv, down |-> down, clock |-> clock,
+      deadline |-> deadline, why |-> why]
+Set(t) ==
+  /\ cst' = t.cst /\ acc' = t.acc /\ reg' = t.reg /\ sess' = t.sess /\ adv' = t.adv
+  /\ down' = t.down /\ clock' = t.clock /\ deadline' = t.deadline /\ why' = t.why
 
 Init ==
-  /\ cst = [c \in Conn |-> "idle"]
-  /\ reg = {} /\ sess = {}
-  /\ adv = [e \in Eps |-> 0]
-  /\ down = FALSE /\ clock = 0
-  /\ deadline = [c \in Conn |-> 0]
-  /\ why = [c \in Conn |-> ""]
+  /\ cst = InitState.cst /\ acc = InitState.acc /\ reg = {} /\ sess = {} /\ adv = InitState.adv
+  /\ down = FALSE /\ clock = 0 /\ deadline = InitState.deadline /\ why = InitState.why
 
-\* the handler registers the connection (addSession, AddConn)
-Connect(c, dl) ==
-  /\ ~down /\ cst[c] = "idle"
-  /\ (dl = 0 \/ dl > clock)          \* an expired token is refused by the middleware
-  /\ cst' = [cst EXCEPT ![c] = "open"]
-  /\ sess' = sess \cup {c}
-  /\ reg' = reg \cup {c}
-  /\ adv' = [adv EXCEPT ![Ep(c)] = @ + 1]
-  /\ deadline' = [deadline EXCEPT ![c] = dl]
-  /\ UNCHANGED <<down, clock, why>>
-
-\* the client stops accepting (listener.Close -> yamux go-away); the connection stays open
-GoAway(c) ==
-  /\ cst[c] = "open"
-  /\ cst' = [cst EXCEPT ![c] = "goaway"]
-  /\ UNCHANGED <<reg, sess, adv, down, clock, deadline, why>>
-
-\* a proxied request picks c; if it announced go-away the proxy removes it
-ProxyDial(c) ==
-  /\ c \in reg
-  /\ IF cst[c] = "goaway"
-     THEN reg' = reg \ {c} /\ adv' = [adv EXCEPT ![Ep(c)] = @ - 1]
-     ELSE UNCHANGED <<reg, adv>>
-  /\ UNCHANGED <<cst, sess, down, clock, deadline, why>>
-
-\* the connection ends: AcceptStreamWithContext returns
-End(c, cause) ==
-  /\ cst[c] \in {"open", "goaway"}
-  /\ cause \in {"client-close", "drop", "shed", "token-expiry", "shutdown"}
-  /\ (cause = "token-expiry" => deadline[c] # 0 /\ clock >= deadline[c] /\ ~DisableExpiry)
-  /\ (cause = "shutdown" => down)
-  /\ cst' = [cst EXCEPT ![c] = "ending"]
-  /\ why' = [why EXCEPT ![c] = cause]
-  /\ UNCHANGED <<reg, sess, adv, down, clock, deadline>>
-
-\* the deferred calls run: RemoveConn (a no-op if the proxy already removed it),
-\* removeSession, session and connection close
-HandlerExit(c) ==
-  /\ cst[c] = "ending"
-  /\ cst' = [cst EXCEPT ![c] = "gone"]
-  /\ IF c \in reg THEN reg' = reg \ {c} /\ adv' = [adv EXCEPT ![Ep(c)] = @ - 1]
-                  ELSE UNCHANGED <<reg, adv>>
-  /\ sess' = sess \ {c}
-  /\ UNCHANGED <<down, clock, deadline, why>>
-
-Shutdown == ~down /\ down' = TRUE /\ UNCHANGED <<cst, reg, sess, adv, clock, deadline, why>>
-Tick == clock < MaxClock /\ clock' = clock + 1 /\ UNCHANGED <<cst, reg, sess, adv, down, deadline, why>>
+Connect(c, dl) == ConnectOK(S, c, dl) /\ Set(ConnectF(S, c, dl))
+GoAway(c) == GoAwayOK(S, c) /\ Set(GoAwayF(S, c))
+ProxyDial(c) == DialOK(S, c) /\ Set(DialF(S, c))
+End(c, cause) == EndOK(S, c, cause) /\ Set(EndF(S, c, cause))
+HandlerExit(c) == ExitOK(S, c) /\ Set(ExitF(S, c))
+Redial(c) == RedialOK(S, c) /\ Set(RedialF(S, c))
+Shutdown == ~down /\ Set(ShutdownF(S))
+Tick == clock < MaxClock /\ Set(TickF(S))
 
 Next ==
   \/ \E c \in Conn, dl \in 0..MaxClock : Connect(c, dl)
-  \/ \E c \in Conn : GoAway(c) \/ ProxyDial(c) \/ HandlerExit(c)
-  \/ \E c \in Conn, cause \in {"client-close", "drop", "shed", "token-expiry", "shutdown"} : End(c, cause)
+  \/ \E c \in Conn : GoAway(c) \/ ProxyDial(c) \/ HandlerExit(c) \/ Redial(c)
+  \/ \E c \in Conn, cause \in Causes : End(c, cause)
   \/ Shutdown \/ Tick
 
 Fairness ==
@@ -103,25 +46,46 @@ Fairness ==
 Spec == Init /\ [][Next]_vars /\ Fairness
 
 -----------------------------------------------------------------------------
-Alive(c) == cst[c] \in {"open", "goaway"}
-CountOn(S, e) == Cardinality({c \in S : Ep(c) = e})
-
-SessionsAreHandlers == sess = {c \in Conn : cst[c] \in {"open", "goaway", "ending"}}
-RegSubsetSess == reg \subseteq sess
-AdvMatchesReg == \A e \in Eps : adv[e] = CountOn(reg, e)
-Quiescent == \A c \in Conn : cst[c] # "ending"
-\* at quiescence the registry is the open connections (minus those that announced go-away and were dropped by the proxy)
-RegistryIsOpenConns ==
-  Quiescent => /\ reg \subseteq {c \in Conn : Alive(c)}
-               /\ {c \in Conn : cst[c] = "open"} \subseteq reg
-               /\ sess = {c \in Conn : Alive(c)}
-AllGoneAdvertisesNothing ==
-  (\A c \in Conn : cst[c] \in {"idle", "gone"}) => (reg = {} /\ sess = {} /\ \A e \in Eps : adv[e] = 0)
-NotClosedBeforeExpiry ==
-  \A c \in Conn : why[c] = "token-expiry" => (deadline[c] # 0 /\ clock >= deadline[c] /\ ~DisableExpiry)
+SessionsAreHandlers == SessionsAreHandlersP(S)
+RegSubsetSess == RegSubsetSessP(S)
+AdvMatchesReg == AdvMatchesRegP(S)
+RegistryIsOpenConns == RegistryIsOpenConnsP(S)
+AllGoneAdvertisesNothing == AllGoneAdvertisesNothingP(S)
+NotClosedBeforeExpiry == NotClosedBeforeExpiryP(S)
+Alive(c) == AliveIn(S, c)
 \* a connection whose token expired is closed by the server
 ClosedAtExpiry ==
   \A c \in Conn : (Alive(c) /\ deadline[c] # 0 /\ clock >= deadline[c] /\ ~DisableExpiry) ~> ~Alive(c)
 \* after a shutdown every connection is released
 ShutdownReleasesAll == down ~> (sess = {} /\ reg = {})
+
+-----------------------------------------------------------------------------
+(* The scenario driver's commands *)
+DoListen(c) == ListenOK(S, c) /\ Set(ListenF(S, c))
+DoGoAway(c) == GoAwayOK(S, c) /\ Set(GoAwayF(S, c))
+DoClose(c) == EndOK(S, c, "client-close") /\ Set(FinishF(S, c, "client-close"))
+DoDrop(c) == EndOK(S, c, "drop") /\ Set(FinishF(S, c, "drop"))
+\* a request for e that the load balancer hands to c (the driver repeats the request until c is picked)
+DoRequest(e, c) == c \in reg /\ Ep(c) = e /\ Set(DialF(S, c))
+DoRequestNone(e) == (\A c \in reg : Ep(c) # e) /\ UNCHANGED vars
+\* a request in flight on c while its connection is cut (only where no sibling announced go-away: the
+\* driver could not tell which 502 it saw)
+DoDropInflight(c) ==
+  /\ cst[c] = "open" /\ c \in reg
+  /\ \A o \in reg : Ep(o) = Ep(c) => cst[o] # "goaway"
+  /\ Set(FinishF(S, c, "drop"))
+\* shedding while every client would reconnect (any set of sessions)
+DoShed == sess # {} /\ (\A c \in sess : acc[c]) /\ \E t \in ShedSucc(S) : Set(t)
+DoStop == ~down /\ Set(StopF(S))
+
+MacroNext ==
+  \/ \E c \in Conn : DoListen(c) \/ DoGoAway(c) \/ DoClose(c) \/ DoDrop(c) \/ DoDropInflight(c)
+  \/ \E e \in Eps, c \in Conn : DoRequest(e, c)
+  \/ \E e \in Eps : DoRequestNone(e)
+  \/ DoShed \/ DoStop
+MacroSpec == Init /\ [][MacroNext]_vars
+\* why is a history variable
+MacroView == <<cst, acc, reg, sess, adv, down>>
+\* every macro step ends in a quiescent state of Spec
+MacroQuiescent == QuiescentP(S)
 =============================================================================
